@@ -4254,17 +4254,19 @@ class NameCheckVisitor(node_visitor.ReplacingNodeVisitor):
                     # but that doesn't seem worth supporting
                     self.visit(node.target)
                 self._generic_visit_list(node.body)
-        self._handle_loop_else(node.orelse, body_scope, always_entered)
 
         # in loops, variables may have their first read before their first write
         # see e.g. test_stacked_scopes.TestLoop.test_conditional_in_loop
         # to get all the definition nodes in that case, visit the body twice in the collecting
-        # phase
+        # phase. The second visit starts from what a previous iteration may have left behind;
+        # it has to happen before the else block is merged in, which only runs after the loop.
         if self.state == VisitorState.collect_names:
             with self.scopes.subscope():
+                self._combine_with_previous_iteration(body_scope)
                 with qcore.override(self, "being_assigned", iterated_value):
                     self.visit(node.target)
                 self._generic_visit_list(node.body)
+        self._handle_loop_else(node.orelse, body_scope, always_entered)
 
     visit_AsyncFor = visit_For
 
@@ -4284,19 +4286,35 @@ class NameCheckVisitor(node_visitor.ReplacingNodeVisitor):
                 # The "node" argument need not be an AST node but must be unique.
                 self.add_constraint((node, 1), constraint)
                 self._generic_visit_list(node.body)
-        self._handle_loop_else(node.orelse, body_scope, always_entered)
 
         if self.state == VisitorState.collect_names:
-            test, constraint = self.constraint_from_condition(
-                node.test, check_boolability=False
-            )
             with self.scopes.subscope():
+                self._combine_with_previous_iteration(body_scope)
+                test, constraint = self.constraint_from_condition(
+                    node.test, check_boolability=False
+                )
                 self.add_constraint((node, 2), constraint)
                 self._generic_visit_list(node.body)
+        self._handle_loop_else(node.orelse, body_scope, always_entered)
 
         if always_entered and all(LEAVES_LOOP not in scope for scope in loop_scopes):
             # This means the code following the loop is unreachable.
             self._set_name_in_scope(LEAVES_SCOPE, node, AnyValue(AnySource.marker))
+
+    def _combine_with_previous_iteration(self, body_scope: SubScope) -> None:
+        """Make the definitions that an earlier iteration of a loop body may have left
+        visible, next to the ones from before the loop."""
+        if body_scope is None:
+            # only function scopes track definitions
+            return
+        with self.scopes.subscope() as before_loop:
+            pass
+        previous_iteration = {
+            name: nodes
+            for name, nodes in body_scope.items()
+            if name not in (LEAVES_LOOP, LEAVES_SCOPE)
+        }
+        self.scopes.combine_subscopes([before_loop, previous_iteration])
 
     def _handle_loop_else(
         self, orelse: list[ast.stmt], body_scope: SubScope, always_entered: bool
